@@ -11,7 +11,7 @@ TECHNIQUE = ("bounded-exhaustive enumeration of device-activity multisets on an 
 RULE = ("every multiset (multiplicity<=2, up to time translation: min start = 0) of <=K activities "
         "(span within grid G_T incl. zero length) x type {computation, communication} (+ distractor slice with "
         "memcpy/sync activities that must be ignored; + file slice loading each small world from its own "
-        "1- and 2-rank files; + session slice: the same TraceAnalysis object ran a critical-path analysis of one launch window | decode_symbol_ids | the other summary getters before) x N1 tie orders (stable, all-reversed, every single tie group permuted); "
+        "1- and 2-rank files, also stretched beyond 2**31 us and with computation on stream 0; + session slice: the same TraceAnalysis object ran a critical-path analysis of one launch window | decode_symbol_ids | the other summary getters before) x N1 tie orders (stable, all-reversed, every single tie group permuted); "
         "non-trivial = communication time > 0 and both kinds present")
 ASSUMPTIONS = [
     "pandas/numpy primitives are trusted; an unstable sort may return any order of rows with equal keys",
@@ -58,6 +58,11 @@ def worlds(tier: str, stats: Dict[str, Any]) -> Iterator[Any]:
         if len(ms) == 2:
             stats["transitions"] += 1
             yield dict(mode="file", ranks=[[list(i) for i in ms]], no_corr=True)
+            # a very long trace (times beyond 2**31 us) and computation on the legacy default stream 0
+            if all(i[1] > i[0] for i in ms):
+                stats["transitions"] += 2
+                yield dict(mode="file", ranks=[[list(i) for i in ms]], scale=2 ** 29 + 3)
+                yield dict(mode="file", ranks=[[list(i) for i in ms]], streams={"P": 0})
             # session slice: the same object was used for other analyses before (launch calls issued one after the other)
             if all(i[1] > i[0] for i in ms):
                 for pk in PRIOR_KINDS:
@@ -119,7 +124,8 @@ def check(world) -> Dict[str, Any]:
         exp = {r: expected(its) for r, its in ranks.items()}
         if any(v is None for v in exp.values()):
             return dict(viol=[], nontrivial=False, outcome="undef", execs=0)
-        tas = [htaenv.load_world({r: ivworlds.events_for(its, no_corr=bool(world.get("no_corr")), spread=bool(world.get("prior")))
+        tas = [htaenv.load_world({r: ivworlds.events_for(its, no_corr=bool(world.get("no_corr")), spread=bool(world.get("prior")),
+                                                         scale=world.get("scale", 1), streams=world.get("streams"))
                                   for r, its in ranks.items()})[0]]
         b_dev = 1
         if world.get("prior"):
